@@ -222,6 +222,9 @@ def check(pid, tier):
              if k.get("property") == pid and k.get("status", "open") == "open"]
     lock = load_json(os.path.join(HERE, "obligations.lock"), {}).get(pid, {})
 
+    import shutil
+    shutil.rmtree(os.path.join(HERE, "replays", pid), ignore_errors=True)
+
     # ---- P
     eng, reports, solver_wall = run_P(pid, tier, world)
     vcs = [o for r in reports for o in r.obligations]
@@ -246,10 +249,18 @@ def check(pid, tier):
     violations = []
     known_hit = {}
 
+    import re
+
     def is_known(key, input_class):
         for k in known:
-            if k.get("key") == key and (k.get("input_class") in (None, "", input_class)):
-                return k
+            if "key" in k and k["key"] != key:
+                continue
+            if "key_regex" in k and not re.search(k["key_regex"], key):
+                continue
+            need = k.get("input_class_contains")
+            if need and need not in (input_class or "").split(","):
+                continue
+            return k
         return None
 
     for b in bounded:
